@@ -285,7 +285,11 @@ FirstWire(c) == LET S == {j \in W : Sent(j) /\ ClassOfPkt(j) = c} IN IF S = {} T
 FirstReq(c) == Min({i \in R : ClassOfReq(i) = c})
 \* a single-filter SUBSCRIBE on or after a connection that required re-subscription may be a
 \* re-subscription rather than the first transmission of an application request
-MaybeResub(j) == wire[j].p = "SUBSCRIBE" /\ Len(wire[j].fs) = 1 /\ \E g \in 1..wire[j].g : conns[g].accepted /\ (\E h \in 1..(g - 1) : conns[h].accepted) /\ (~conns[g].sp \/ Cfg.alwaysResub)
+\* (only a subscription that was transmitted before can be RE-subscribed: the SUBSCRIBE that puts a filter on the wire
+\* for the very first time is the first transmission of the application's request, whatever code path sent it)
+MaybeResub(j) == /\ wire[j].p = "SUBSCRIBE" /\ Len(wire[j].fs) = 1
+                 /\ \E g \in 1..wire[j].g : conns[g].accepted /\ (\E h \in 1..(g - 1) : conns[h].accepted) /\ (~conns[g].sp \/ Cfg.alwaysResub)
+                 /\ \E i \in 1..(j - 1) : wire[i].p = "SUBSCRIBE" /\ Sent(i) /\ \E x \in 1..Len(wire[i].fs) : wire[i].fs[x] = wire[j].fs[1]
 FirstWireStrict(c) == LET S == {j \in W : Sent(j) /\ ClassOfPkt(j) = c /\ ~MaybeResub(j)} IN IF S = {} THEN 0 ELSE Min(S)
 \* evaluated at quiescence (all Submit events are in): classes are first transmitted in the order of
 \* their first submission; a QoS 0 publish that never reached the wire is the allowed exception
@@ -335,9 +339,11 @@ C12_SameOnRetx == fresh = "Write" =>
 C12_NoPubAfterRel == fresh = "Write" =>
   LET j == NW IN IsPub(j) =>
     ~\E i \in 1..(j - 1) : wire[i].p = "PUBREL" /\ Sent(i) /\ wire[i].id = wire[j].id /\ RelTag(i) = wire[j].tag
+\* (a QoS 0 message is handed to the transport once: a failed write is not repeated either -- there is no retry handle
+\* for QoS 0)
 C12_NoQoS0Retx == fresh = "Write" =>
   LET j == NW IN (IsPub(j) /\ wire[j].qos = 0) =>
-    ~\E i \in 1..(j - 1) : IsPub(i) /\ wire[i].tag = wire[j].tag /\ Sent(i)
+    ~\E i \in 1..(j - 1) : IsPub(i) /\ wire[i].tag = wire[j].tag
 \* a PUBREL carries the identifier of a message whose PUBLISH was transmitted before
 C12_RelHasPublish == fresh = "Write" =>
   LET j == NW IN (wire[j].p = "PUBREL") => RelTag(j) # 0
@@ -349,6 +355,12 @@ C12_AsSubmitted == fresh = "Idle" =>
     LET n == wire[j].tag IN
     (n \in 1..Len(reqs) /\ reqs[n].k = "pub") =>
        /\ wire[j].qos = reqs[n].q /\ wire[j].retain = reqs[n].retain /\ wire[j].topic = "t"
+
+\* ---- C05 (on the retrying client: also what is sent again is well-formed) ---------------------------------
+\* every packet the client writes -- first transmissions, retransmissions (PUBLISH with DUP, PUBREL again), repeated
+\* SUBSCRIBE / UNSUBSCRIBE, re-subscriptions, acknowledgements of inbound traffic -- passes the independent decoder of
+\* the broker model (fixed-header flags incl. the reserved bits, minimal remaining length, field lengths, non-zero id)
+C05_PacketsWellFormed == fresh = "Write" => wire[NW].bad = ""
 
 \* ---- C15 (the clause about caller-supplied identifiers, on the retrying client) -------------------
 \* an identifier the application put on a message is the identifier of every PUBLISH / PUBREL of that message, also
@@ -383,8 +395,9 @@ C17_AtMostOnce == fresh = "Handled" =>
 \* before the broker queued it has been handed over by the time the run is quiescent
 C17_NoneDropped == Drained =>
   \A i \in InSends :
-    ((\E r \in 1..Len(reads) : reads[r].p = "PUBLISH" /\ reads[r].tag = sends[i].tag)
-      /\ sends[i].qos < 2
+    ((\E r \in 1..Len(reads) : reads[r].p = "PUBLISH" /\ reads[r].tag = sends[i].tag
+           \* QoS 2: consumed means that the PUBREL with its identifier has been read on that connection as well
+           /\ (sends[i].qos = 2 => \E r2 \in (r + 1)..Len(reads) : reads[r2].p = "PUBREL" /\ reads[r2].id = sends[i].id /\ reads[r2].g = reads[r].g))
       /\ (\E k \in 1..NH : 2 * k <= Len(handles) /\ HRet(k) < sends[i].seq))
     => \E x \in 1..Len(handled) : handled[x].tag = sends[i].tag
 
@@ -405,7 +418,7 @@ Obs == [
   C03_OrderPerConn |-> C03_OrderPerConn, C03_FirstTxOrder |-> C03_FirstTxOrder, C03_FirstDeliveryOrder |-> C03_FirstDeliveryOrder,
   C08_StableSubs |-> C08_StableSubs, C08_NoResubUnlessDue |-> C08_NoResubUnlessDue,
   C12_DupFlag |-> C12_DupFlag, C12_SameOnRetx |-> C12_SameOnRetx, C12_NoPubAfterRel |-> C12_NoPubAfterRel,
-  C12_NoQoS0Retx |-> C12_NoQoS0Retx, C12_RelHasPublish |-> C12_RelHasPublish, C12_AsSubmitted |-> C12_AsSubmitted, C15_PresetIdKept |-> C15_PresetIdKept, C19_TimeoutTyped |-> C19_TimeoutTyped,
+  C12_NoQoS0Retx |-> C12_NoQoS0Retx, C12_RelHasPublish |-> C12_RelHasPublish, C12_AsSubmitted |-> C12_AsSubmitted, C15_PresetIdKept |-> C15_PresetIdKept, C05_PacketsWellFormed |-> C05_PacketsWellFormed, C19_TimeoutTyped |-> C19_TimeoutTyped,
   C17_RightHandler |-> C17_RightHandler, C17_AtMostOnce |-> C17_AtMostOnce, C17_NoneDropped |-> C17_NoneDropped,
   C18_TimeoutClosesAndReports |-> C18_TimeoutClosesAndReports, C18_NoStall |-> C18_NoStall ]
 
